@@ -87,24 +87,20 @@ def e1(prog, ctx, L):
                          key="cond:%s" % const)
             # the assignment leaves the loop and reaches the function's return unchanged
             var = render(lhs) if not isinstance(lhs, dict) else lhs["name"]
-            if L.header in cfg.reachable(tb):
+            if L.header in cfg.reachable(tb) and cfg.feasible_reach(L.header, lambda lit, b, i: False, lambda a: True, start=tb) is not None:
                 ctx.fail("E1", "%s aborts the read" % const, st.where, "after the assignment the loop goes on reading lines", key="continue:%s" % const)
             else:
-                rr = [r for r in f.returns() if r.children and render(r.children[0]) == var]
-                reach = [r for r in rr if any(d.node is st for d in rd.reaching(var, r))]
-                only = all(cfg.block_of(r) in cfg.reachable(tb) for r in reach) and reach
-                others = [r for r in f.returns() if cfg.block_of(r) in cfg.reachable(tb) and r not in rr]
-                from sa.buf import _redefined_between
-                clobber = [r for r in reach if _redefined_between(f, {var}, st, r)]
-                if clobber:
+                want = prog.enumerators.get(const)
+                vals = cfg.returned_values_from(tb)
+                if vals == {want}:
+                    ctx.ok("E1", "%s reaches the caller" % const, st.where, "every consistent path from the assignment ends in a return of this value")
+                elif None in vals:
                     ctx.fail("E1", "%s reaches the caller" % const, st.where,
-                             "on some path between the assignment and `return %s` the variable is assigned again: the parse error is replaced "
-                             "(e.g. by the result of a clean-up or post-processing call) and the caller sees success" % var, key="lost:%s" % const)
-                elif reach and not others:
-                    ctx.ok("E1", "%s reaches the caller" % const, st.where, "the assignment reaches `return %s` with no other definition in between" % var)
+                             "on some path between the assignment and the return the variable is assigned again: the parse error is replaced "
+                             "(e.g. by the result of a clean-up or post-processing call) and the caller sees success", key="lost:%s" % const)
                 else:
-                    ctx.fail("E1", "%s reaches the caller" % const, st.where, "the code is overwritten or a different value is returned",
-                             key="lost:%s" % const)
+                    ctx.fail("E1", "%s reaches the caller" % const, st.where, "the code is overwritten or a different value is returned (%s)" % sorted(
+                        str(v) for v in vals), key="lost:%s" % const)
     # missing delimiter: only under a delimiter set without blanks
     md = [(lhs, st) for lhs, st in _assignments_of_const(f, "ECONF_MISSING_DELIMITER") if st.within(L.loop)]
     if not md:
